@@ -343,9 +343,24 @@ func (a *authRun) serve(method, path, authz, accept string, body []byte, ctype s
 	if body != nil {
 		rd = bytes.NewReader(body)
 	}
+	ws := strings.HasPrefix(authz, "ws:")
+	if ws {
+		// a websocket upgrade request: the UI's way in is the process token
+		// in the authtoken parameter; none, an empty or a wrong one here
+		if tok, has := strings.CutPrefix(authz, "ws:token="); has {
+			sep := "?"
+			if strings.Contains(path, "?") {
+				sep = "&"
+			}
+			path += sep + "authtoken=" + tok
+		}
+	}
 	req := httptest.NewRequest(method, "http://"+hostAddr+path, rd)
 	req.RemoteAddr = peerAddr
-	if authz != "" {
+	if ws {
+		req.Header.Set("Upgrade", "websocket")
+		req.Header.Set("Connection", "Upgrade")
+	} else if authz != "" {
 		req.Header.Set("Authorization", authz)
 	}
 	if accept != "" {
@@ -590,6 +605,30 @@ func execAuth(rc *harness.RunCtx, p *harness.Plan) *harness.Outcome {
 					if a.stop {
 						return
 					}
+					// before anything in this process has asked for the
+					// process token: a websocket upgrade without a token,
+					// with an empty and with a wrong one (judged below, once
+					// the control has shown whether the endpoint is live)
+					type early struct {
+						cred string
+						code int
+						body []byte
+					}
+					var earlies []early
+					if m == "GET" {
+						for _, cr := range []string{"ws:", "ws:token=", "ws:token=00000000000000000000"} {
+							auth.VerifFreshProcess()
+							ub, ut := a.bodyFor(op.Sub, m, a.newU, a.newUM, a.canary)
+							code, body := a.serve(m, pfx+a.expand(op.Sub, a.newU), cr, op.Accept, ub, ut)
+							out.SubRuns++
+							earlies = append(earlies, early{cr, code, body})
+						}
+						if cfg.Kind == "token" {
+							// the right credential of this mode IS the
+							// process token: take the new one
+							a.right = "Token " + auth.Token()
+						}
+					}
 					// (c) control: right credentials
 					cpath := pfx + a.expand(op.Sub, a.newC)
 					cb, ct := a.bodyFor(op.Sub, m, a.newC, a.newCM, a.newC)
@@ -610,12 +649,34 @@ func execAuth(rc *harness.RunCtx, p *harness.Plan) *harness.Outcome {
 					if allowed {
 						a.reachN("allow-listed:" + why)
 					}
+					type attempt struct {
+						cred string
+						code int
+						body []byte
+						done bool
+					}
+					var attempts []attempt
+					for _, e := range earlies {
+						attempts = append(attempts, attempt{e.cred, e.code, e.body, true})
+					}
 					for _, cr := range creds {
-						ub, ut := a.bodyFor(op.Sub, m, a.newU, a.newUM, a.canary)
-						code, body := a.serve(m, path, cr, op.Accept, ub, ut)
-						out.SubRuns++
+						attempts = append(attempts, attempt{cred: cr})
+					}
+					for _, at := range attempts {
+						cr, code, body := at.cred, at.code, at.body
+						if !at.done {
+							ub, ut := a.bodyFor(op.Sub, m, a.newU, a.newUM, a.canary)
+							code, body = a.serve(m, path, cr, op.Accept, ub, ut)
+							out.SubRuns++
+						}
 						kind := "no credentials"
-						if cr != "" {
+						if strings.HasPrefix(cr, "ws:") {
+							kind = "websocket upgrade in a fresh process, " + map[string]string{"ws:": "no authtoken", "ws:token=": "empty authtoken"}[cr]
+							if !strings.HasSuffix(kind, "token") {
+								kind += "wrong authtoken"
+							}
+							a.reachN("websocket-upgrade-without-valid-token")
+						} else if cr != "" {
 							kind = "wrong credentials " + credShape(cr)
 						}
 						shape := types[pfx]
